@@ -56,6 +56,40 @@ func (f *frame) stdlib(i *ssa.Call, full string, args []T, st *State, pc string)
 	nb := func(t string) []T { return []T{g.s.def(i.Name(), T{"(mk false " + t + ")", "NB"})} }
 	v := func(k int) string { return "(val " + args[k].S + ")" }
 	g.trustedUse["stdlib:"+full] = true
+	if strings.HasPrefix(full, "slices.Compact[[]string") {
+		// T-STD: slices.Compact keeps the first of every run of equal neighbours, in place; the
+		// result is a prefix of the same backing array with the same set of values. Called on an
+		// ascending slice (obligation) the result is strictly ascending.
+		sl := args[0]
+		h := g.elemHeapOf(types.Typ[types.String])
+		oldArr := g.s.def("cmp.old", T{g.readHeap(st, h, "(ptr "+sl.S+")"), "(Array Int NB)"}).S
+		o, n := "(off "+sl.S+")", "(len_ "+sl.S+")"
+		g.s.declNamed("QK.Int.0", "Int")
+		f.oblig("requires", fmt.Sprintf("%s#pre(slices.Compact).sorted.%d", funcKey(f.fn), f.npanic["compact"]), pc,
+			imp(and("(<= "+o+" QK.Int.0)", "(< (+ QK.Int.0 1) (+ "+o+" "+n+"))"), "(le (val (select "+oldArr+" QK.Int.0)) (val (select "+oldArr+" (+ QK.Int.0 1))))"),
+			"slices.Compact is given an ascending slice (so that its result is strictly ascending)", i.Pos(), nil)
+		f.npanic["compact"]++
+		na := g.s.decl("cmp.new", "(Array Int NB)")
+		nn := g.s.decl("cmp.len", "Int")
+		g.s.assumeUnder(pc, and("(<= 0 "+nn.S+")", "(<= "+nn.S+" "+n+")", imp("(> "+n+" 0)", "(> "+nn.S+" 0)")))
+		perm := &forallFact{sort: "B", guard: pc, outer: "true", inst: func(t string) string {
+			return eq(app("mem", na.S, o, nn.S, t), app("mem", oldArr, o, n, t))
+		}}
+		g.foralls = append(g.foralls, perm)
+		for _, t := range append([]string{}, g.instTerms["B"]...) {
+			g.instOne(perm, t)
+		}
+		strict := &forallFact{sort: "Int", guard: pc, outer: "true", inst: func(t string) string {
+			return and(imp(and("(<= "+o+" "+t+")", "(< (+ "+t+" 1) (+ "+o+" "+nn.S+"))"), and("(le (val (select "+na.S+" "+t+")) (val (select "+na.S+" (+ "+t+" 1))))", not(eq("(val (select "+na.S+" "+t+"))", "(val (select "+na.S+" (+ "+t+" 1)))")))),
+				imp(and("(<= "+o+" "+t+")", "(< "+t+" (+ "+o+" "+nn.S+"))"), "(not (isnil (select "+na.S+" "+t+")))"))
+		}}
+		g.foralls = append(g.foralls, strict)
+		for _, t := range append([]string{}, g.instTerms["Int"]...) {
+			g.instOne(strict, t)
+		}
+		g.writeHeap(st, h, "(ptr "+sl.S+")", na.S)
+		return []T{g.s.def(i.Name(), T{"(slc (ptr " + sl.S + ") (off " + sl.S + ") " + nn.S + " (snil " + sl.S + "))", "Slc"})}, pc, true
+	}
 	switch full {
 	case "bytes.Compare", "strings.Compare":
 		return []T{g.s.def(i.Name(), T{"(cmp " + v(0) + " " + v(1) + ")", "Int"})}, pc, true
